@@ -45,6 +45,7 @@ PROP = dict(
           "and a hop with parallel channels of different policy) or (minimum mode and the "
           "receiver amount > 1 msat, i.e. some min_htlc binds)."),
     assumptions=[
+        "fourth session: TestVerifC19RequestRoute continues a session like the payment life cycle (first attempt, generated channel_update messages for the invoice's private edges through GetAdditionalEdgePolicy + UpdateAdditionalEdge incl. forged ones, next attempt judged against the updated edges); the payload tightening fills up either the metadata or the destination's custom record",
         "fee rates <= 1e6 ppm, |inbound rate| <= 1e6 ppm, requested amounts <= 7e10 msat; a returned route whose total amount exceeds 5e12 msat (fees compounding over extreme policies) is counted outside_domain and not judged: up to there lnd's uint64/int64 fee products cannot wrap",
         "for the node's own channels the bandwidth hint replaces the disabled flag (documented in graphParams.bandwidthHints); a missing hint means 'assume enough'",
         "OutgoingChannelIDs is only generated when the source is the own node (with a foreign source lnd applies the restriction to the own node's channels, not to the first hop)",
